@@ -60,3 +60,22 @@ Proof.
   replace (INR 2) with 2%R by (simpl; ring). fold s2. unfold pI. generalize s2. intros s.
   destruct i as [|[|i]]; try lia; destruct j as [|[|j]]; try lia; apply c_eq; vm_compute; ring.
 Qed.
+
+(* ---------- finding (since 9255946): a multi-qubit pulse mapped onto the whole register with an identifier mapping
+   (or an additional noise Hamiltonian) is no longer returned by the shortcut and util.tensor_insert is then called
+   without arguments: the model, like the code, raises instead of producing the renamed / augmented pulse ---------- *)
+From Coq Require Import String.
+From FF Require Import Model.Remap Model.Extend.
+Local Open Scope string_scope.
+Definition fr_pulse : pdesc := mkPdesc 4 ["a"] ["n"] "Pauli" 0 false false None false false false false.
+Example full_register_refuted :
+  extend [mkEntry fr_pulse (QTup [0; 1]) (Some [("a", "A"); ("n", "Nn")])] None 2 None None None None = Raise ErrNoArgs
+  /\ extend [mkEntry fr_pulse (QTup [0; 1]) None] None 2 (Some (4, ["extra"])) None None None = Raise ErrNoArgs
+  /\ extend [mkEntry fr_pulse (QTup [0; 1]) None] None 2 None None None None = ReturnSame [].
+Proof. repeat split; vm_compute; reflexivity. Qed.
+(* the single-qubit analogue works: the pulse is rebuilt with the new identifiers *)
+Example full_register_single_ok :
+  exists pl, extend [mkEntry (mkPdesc 2 ["a"] ["n"] "Pauli" 0 false false None false false false false) (QInt 0)
+                       (Some [("a", "A"); ("n", "Nn")])] None 2 None None None None = Extended pl
+             /\ pl_c_ids pl = ["A"] /\ pl_n_ids pl = ["Nn"] /\ pl_N pl = 1.
+Proof. eexists. split. vm_compute. reflexivity. repeat split. Qed.
